@@ -43,6 +43,7 @@ type stressTracer struct {
 	events []stressEv
 	out    *os.File
 	n      int
+	quiet  bool // the iteration waited for everything to settle: the trace ends with a "quiet" line
 	done   int // "close.done" points seen since begin: the Close that won has returned
 }
 
@@ -71,6 +72,7 @@ func (st *stressTracer) begin(it int) {
 	st.on = st.out != nil && it%2 == 0
 	st.events = st.events[:0]
 	st.done = 0
+	st.quiet = false
 	st.mu.Unlock()
 }
 
@@ -97,6 +99,9 @@ func (st *stressTracer) end() {
 	defer st.mu.Unlock()
 	if !st.on || st.out == nil {
 		return
+	}
+	if st.quiet {
+		st.events = append(st.events, stressEv{A: "quiet"})
 	}
 	st.on = false
 	st.n++
@@ -157,7 +162,33 @@ func TestConnCloseStress(t *testing.T) {
 			// the peer: swallows requests and pushes events (legacy framing, v4)
 			var peerWG sync.WaitGroup
 			peerWG.Add(2)
-			go func() { defer peerWG.Done(); _, _ = io.Copy(io.Discard, s0) }()
+			// every other connection: the peer answers each request (responses race the close: delivery, release of the
+			// stream id, completion of the request all meet the teardown); otherwise it swallows them
+			answer := it%2 == 1
+			var wmu sync.Mutex // the peer's two writers share the pipe
+			go func() {
+				defer peerWG.Done()
+				if !answer {
+					_, _ = io.Copy(io.Discard, s0)
+					return
+				}
+				codec := frame.NewCodec()
+				for {
+					f, err := codec.DecodeFrame(s0)
+					if err != nil {
+						_, _ = io.Copy(io.Discard, s0)
+						return
+					}
+					rsp := frame.NewFrame(primitive.ProtocolVersion4, f.Header.StreamId, &message.Supported{Options: map[string][]string{"CQL_VERSION": {"3.0.0"}}})
+					wmu.Lock()
+					err = codec.EncodeFrame(rsp, s0)
+					wmu.Unlock()
+					if err != nil {
+						_, _ = io.Copy(io.Discard, s0)
+						return
+					}
+				}
+			}()
 			stopEvents := make(chan struct{})
 			go func() {
 				defer peerWG.Done()
@@ -169,7 +200,10 @@ func TestConnCloseStress(t *testing.T) {
 						return
 					default:
 					}
-					if err := codec.EncodeFrame(ev, s0); err != nil {
+					wmu.Lock()
+					err := codec.EncodeFrame(ev, s0)
+					wmu.Unlock()
+					if err != nil {
 						return
 					}
 					atomic.AddInt64(&rep.Events, 1)
@@ -289,13 +323,16 @@ func TestConnCloseStress(t *testing.T) {
 				problem(fmt.Sprintf("iteration %d (%s): Send accepted on a closed connection", it, kind))
 				pmu.Unlock()
 			}
-			// every accepted request completes with an error (nothing was ever answered)
+			tracer.mu.Lock()
+			tracer.quiet = true
+			tracer.mu.Unlock()
+			// every accepted request completes (with an error, unless the peer answers)
 			deadline = time.Now().Add(5 * time.Second)
 			for _, r := range accepted {
 				for !r.IsDone() && time.Now().Before(deadline) {
 					time.Sleep(time.Millisecond)
 				}
-				if !r.IsDone() || r.Err() == nil {
+				if !r.IsDone() || (r.Err() == nil && !answer) {
 					pmu.Lock()
 					problem(fmt.Sprintf("iteration %d (%s): an accepted request (stream %d) is done=%v err=%v after the connection closed", it, kind, r.StreamId(), r.IsDone(), r.Err()))
 					pmu.Unlock()
@@ -569,4 +606,88 @@ func TestServerLifeStress(t *testing.T) {
 	}
 	b, _ := json.Marshal(map[string]interface{}{"rounds": n, "connections": conns, "problems": problems})
 	fmt.Println("LSTRESS " + string(b))
+}
+
+// TestConnCloseDuringDelivery replays, on a real connection, the behaviour TLC finds in the as-found variant of
+// ConnShutdown.tla (ConnShutdownAsFoundOrphan.cfg): the receive loop has unregistered a request for its final frame
+// (parked at the gate just before handing the frame over), Close runs up to the cancellation of the connection's
+// context and beyond, then the loop goes on. Whatever branch the select in onFrameReceived takes, the request must end
+// up completed and Close must return.
+func TestConnCloseDuringDelivery(t *testing.T) {
+	n, _ := strconv.Atoi(os.Getenv("VERIF_STRESS"))
+	if n == 0 {
+		t.Skip("VERIF_STRESS not set")
+	}
+	var problems []string
+	for it := 0; it < n && len(problems) < 5; it++ {
+		atGate := make(chan struct{})
+		release := make(chan struct{})
+		cancelled := make(chan struct{})
+		var once, once2 sync.Once
+		client.VerifGate = func(point string, a int64) {
+			switch point {
+			case "in.released":
+				parked := false
+				once.Do(func() { parked = true })
+				if parked {
+					close(atGate)
+					<-release
+				}
+			case "conn.close.chans":
+				once2.Do(func() { close(cancelled) })
+			}
+		}
+		ctx, cancel := context.WithCancel(context.Background())
+		c0, s0 := net.Pipe()
+		cl, err := client.VerifNewClientConnection(c0, ctx, nil, primitive.CompressionNone, 4, 2, time.Hour, nil)
+		if err != nil {
+			t.Fatal(err)
+		}
+		go func() { // the peer answers every request
+			codec := frame.NewCodec()
+			for {
+				f, err := codec.DecodeFrame(s0)
+				if err != nil {
+					return
+				}
+				if codec.EncodeFrame(frame.NewFrame(primitive.ProtocolVersion4, f.Header.StreamId, &message.Ready{}), s0) != nil {
+					return
+				}
+			}
+		}()
+		req, err := cl.Send(frame.NewFrame(primitive.ProtocolVersion4, 0, &message.Options{}))
+		if err != nil {
+			t.Fatal(err)
+		}
+		select {
+		case <-atGate:
+		case <-time.After(10 * time.Second):
+			t.Fatal("the receive loop never reached the gate before handing the response over")
+		}
+		closeDone := make(chan struct{})
+		go func() { _ = cl.Close(); close(closeDone) }()
+		select {
+		case <-cancelled: // Close has cancelled the context, closed the transport and the channels
+		case <-time.After(10 * time.Second):
+			problems = append(problems, fmt.Sprintf("iteration %d: Close did not get as far as closing its channels", it))
+		}
+		close(release)
+		select {
+		case <-closeDone:
+		case <-time.After(10 * time.Second):
+			problems = append(problems, fmt.Sprintf("iteration %d: Close did not return after the receive loop went on", it))
+		}
+		deadline := time.Now().Add(2 * time.Second)
+		for !req.IsDone() && time.Now().Before(deadline) {
+			time.Sleep(time.Millisecond)
+		}
+		if !req.IsDone() {
+			problems = append(problems, fmt.Sprintf("iteration %d: the request whose final response arrived while the connection was being closed is never completed (done=false err=%v): its receiver blocks for ever", it, req.Err()))
+		}
+		client.VerifGate = nil
+		cancel()
+		_ = s0.Close()
+	}
+	b, _ := json.Marshal(map[string]interface{}{"iterations": n, "problems": problems})
+	fmt.Println("GSTRESS " + string(b))
 }
